@@ -18,11 +18,11 @@ def suites(tier):
     q = tier == "quick"
     jobs = []
     for shell, fish in (("/bin/sh", 0), ("/usr/bin/fish", 1), ("", 0)):
-        cfg = dict(fish=fish, nmax=4 if q else 5)
+        cfg = dict(fish=fish, nmax=4 if q else 6)
         jobs.append(dict(id="quote:%s" % (shell or "default"), func="zzH_C12_quote", cfg=cfg, cfgs={"env:SHELL": shell, "withshell": ""}))
     cfg = dict(fish=1, nmax=3 if q else 4)
     jobs.append(dict(id="quote:withshell-fish", func="zzH_C12_quote", cfg=cfg, cfgs={"env:SHELL": "/bin/sh", "withshell": "/opt/fish -c"}))
     s1 = dict(UTIL, name="util", jobs=jobs)
-    jobs2 = [dict(id="esq", func="zzH_C12_esq", cfg=dict(nmax=4 if q else 5)),
+    jobs2 = [dict(id="esq", func="zzH_C12_esq", cfg=dict(nmax=4 if q else 6)),
              dict(id="expand", func="zzH_C12_expand", cfg=dict(nmax=2 if q else 3), cfgs={"env:SHELL": "/bin/sh"})]
     return [s1, src_suite("src", jobs2)]
